@@ -667,18 +667,25 @@ def remap_by_types(
             # Take the base possible one.
             return_results: List[_MethodTypeReturnInfo] = []
             for base_obj in base_obj_list:
-                # Do basic static analysis without doing any call backs.
-                if inspect.isbuiltin(base_obj.method) or inspect.ismethoddescriptor(
-                    base_obj.method
-                ):
-                    # A method the interpreter implements (str.split, object.__str__): nothing
-                    # is declared for it. The call is emitted as written - not given the
-                    # builtin's own defaults.
-                    default_args_node, return_annotation_raw = r_node, Any
-                else:
-                    default_args_node, return_annotation_raw = _fill_in_default_arguments(
-                        base_obj.method, r_node
+                if not _is_declared_class(base_obj.method_class):
+                    # The attribute comes from one of the interpreter's own classes (str.split,
+                    # list.count, object.__str__, complex.real): nothing is declared for it.
+                    # The call is emitted as written - not given the builtin's own defaults -
+                    # and the callbacks of a declared class it was reached through still run.
+                    return_results.append(
+                        _MethodTypeReturnInfo(
+                            node=r_node,
+                            return_type=Any,
+                            full_type_resolution=True,
+                            obj_info=base_obj,
+                        )
                     )
+                    break
+
+                # Do basic static analysis without doing any call backs.
+                default_args_node, return_annotation_raw = _fill_in_default_arguments(
+                    base_obj.method, r_node
+                )
                 return_annotation = resolve_type_vars(
                     return_annotation_raw, base_obj.obj_type, at_class=base_obj.method_class
                 )
@@ -858,7 +865,14 @@ def remap_by_types(
                     if (
                         found_type is not None
                         and found_type is not Any
-                        and _is_declared_class(found_type)
+                        and (
+                            _is_declared_class(found_type)
+                            # ... or such a class with its type arguments filled in (Vec[Jet])
+                            or (
+                                _is_declared_class(get_origin(found_type))
+                                and hasattr(get_origin(found_type), t_node.func.value.attr)
+                            )
+                        )
                         and not (
                             is_dataclass(found_type)
                             and not hasattr(found_type, t_node.func.value.attr)
